@@ -131,12 +131,24 @@ def check(world, tier):
             if s_ is not None:
                 counters.add(s_)
     # the numbering: counter starts at B (argument of the burst) and is advanced by wrapping_add(1) once per element
-    burst_frames = set(e.ctx for e in S.events if base_name(e) == "<std::collections::vec_deque::Iter<'a, T> as std::iter::Iterator>::next")
-    b.need(len(burst_frames), 1, "burst loop over the queue")
-    for bf in burst_frames:
-        body = eng.frame_bodies[bf]
-        heads = [k for k in eng.loop_invariants if k[0] == bf]
-        for (fid, h) in heads:
+    burst_loops = set()
+    for e in S.events:
+        if base_name(e) == "<std::collections::vec_deque::Iter<'a, T> as std::iter::Iterator>::next":
+            lc = S.loops_containing(e.node)
+            if lc:
+                burst_loops.add(lc[0])     # the innermost loop that advances the queue iterator
+    # ... or a closure-taking adapter over the queue's iterator (one call of the closure per element)
+    for lp, info in getattr(eng, "iter_loops", {}).items():
+        for ev in S.by_node.get(info["caller"], []):
+            if ev.inlined or not ev.args:
+                continue
+            sub = ev.args[0][1] if isinstance(ev.args[0], tuple) and ev.args[0][0] == "agg" else (ev.argsnap[0] if ev.argsnap and isinstance(ev.argsnap[0], dict) else {})
+            ov = sub.get(("$over",))
+            if ov is not None and ov[0] == "r" and ov[1] == wroot and tuple(ov[2]) == tuple(wpath) + (fi_el,):
+                burst_loops.add(lp)
+    b.need(len(burst_loops), 1, "burst loop over the queue")
+    for bl in sorted(burst_loops, key=repr):
+        for (fid, h) in [bl]:
             ln = S.loop_nodes(fid, h)
             sends = set(n for n in call_sites_in_frame(S, S.send_nodes(variants=("Data",)), fid) if n in ln)
             b.need(len(sends), 1, "DATA send site in the burst loop")
@@ -145,9 +157,11 @@ def check(world, tier):
             M = eng.loop_cache.get((fid, h), {}).get("M", set())
             okc = False
             for (root, path) in M:
-                if root[0] != "L" or root[1] != fid or path != ():
+                if root[0] != "L" or path != () or (root[1] != fid and (fid, h) not in getattr(eng, "iter_loops", {})):
                     continue
                 ps = eng.sym_ids.get(("phi", fid, h, root, ()))
+                if ps is None:
+                    continue
                 incs = set()
                 others = set()
                 for (node, wr_, wp, v) in eng.writes_log:
@@ -242,34 +256,10 @@ def is_window_field_value(eng, sym, wroot, wpath, fi):
 
 
 def file_users(world, c, fi_file):
-    """static scan: every use of Window.file across the crate is the fill's read or the flush's write"""
+    """who may touch Window.file: every std call that receives a reference derived from the field (through moves,
+    reborrows, closure captures and crate-local helpers) is the fill's read or the flush's write_all"""
     prog = world.lib
-    uses = []
-    for bp, b in prog.bodies.items():
-        holders = set()
-        for _pass in range(2):
-            for bi, blk in enumerate(b.blocks):
-                for st in blk["stmts"]:
-                    if st["k"] == "assign" and st["rv"]["k"] == "ref":
-                        for ti, pr in place_prefix_types(prog, b, st["rv"]["place"]):
-                            if isinstance(pr, dict) and pr.get("f") == fi_file and ti is not None and prog.types[ti]["k"] == "adt" and prog.types[ti]["path"] == WINDOW:
-                                holders.add(st["place"]["l"])
-                        pl = st["rv"]["place"]
-                        if pl["l"] in holders and pl["p"] == ["deref"]:
-                            holders.add(st["place"]["l"])
-                    if st["k"] == "assign" and st["rv"]["k"] == "use":
-                        op = st["rv"]["op"]
-                        p = op.get("copy") or op.get("move")
-                        if p is not None and p["l"] in holders and not st["place"]["p"]:
-                            holders.add(st["place"]["l"])
-        for bi, blk in enumerate(b.blocks):
-            t = blk["term"]
-            if t["k"] == "call" and holders:
-                for a in t["args"]:
-                    p = a.get("copy") or a.get("move")
-                    if p is not None and p["l"] in holders:
-                        fn = t["fn"]
-                        uses.append((bp, strip_generics(fn.get("resolved") or fn.get("def", "?")), b.loc(bi)))
+    uses = [(bp, callee, loc) for (bp, callee, loc, m, bi) in field_ref_sinks(prog, WINDOW, fi_file)]
     c.need(len(uses), 2, "uses of Window.file in the crate")
     allowed = {"<std::fs::File as std::io::Read>::read", "std::io::Write::write_all"}
     for (bp, callee, loc) in uses:
@@ -281,38 +271,12 @@ def file_users(world, c, fi_file):
 def queue_discipline(world, d, fi_el):
     prog = world.lib
     uses = []
-    for bp, b in prog.bodies.items():
-        holders = {}
-        for _pass in range(2):
-            for bi, blk in enumerate(b.blocks):
-                for st in blk["stmts"]:
-                    if st["k"] == "assign" and st["rv"]["k"] == "ref":
-                        for ti, pr in place_prefix_types(prog, b, st["rv"]["place"]):
-                            if isinstance(pr, dict) and pr.get("f") == fi_el and ti is not None and prog.types[ti]["k"] == "adt" and prog.types[ti]["path"] == WINDOW:
-                                holders[st["place"]["l"]] = st["rv"].get("mut", False)
-                        pl = st["rv"]["place"]
-                        if pl["l"] in holders and pl["p"] == ["deref"]:
-                            holders[st["place"]["l"]] = holders[pl["l"]] and st["rv"].get("mut", False)
-                    if st["k"] == "assign" and st["rv"]["k"] == "use":
-                        op = st["rv"]["op"]
-                        p = op.get("copy") or op.get("move")
-                        if p is not None and p["l"] in holders and not st["place"]["p"]:
-                            holders[st["place"]["l"]] = holders[p["l"]]
-        for bi, blk in enumerate(b.blocks):
-            t = blk["term"]
-            if t["k"] == "call" and holders:
-                for a in t["args"][:1]:
-                    p = a.get("copy") or a.get("move")
-                    if p is not None and p["l"] in holders:
-                        fn = t["fn"]
-                        uses.append((bp, strip_generics(fn.get("resolved") or fn.get("def", "?")), holders[p["l"]], b.loc(bi)))
-            # a &mut to the queue that leaves the function (returned) would expose it
-            for st in blk["stmts"]:
-                if st["k"] == "assign" and st["place"]["l"] == 0 and not st["place"]["p"] and st["rv"]["k"] in ("use",):
-                    op = st["rv"]["op"]
-                    p = op.get("copy") or op.get("move")
-                    if p is not None and p["l"] in holders and holders[p["l"]]:
-                        d.ob(False, "queue-exposed-mutably in %s" % short(bp), "a &mut to the Window's queue is returned from %s" % short(bp), b.loc(bi))
+    for (bp, callee, loc, mut, bi) in field_ref_sinks(prog, WINDOW, fi_el):
+        if callee == "<return>":
+            # a &mut to the queue that leaves its function would expose it
+            d.ob(not mut or not prog.bodies[bp].vis, "queue-exposed-mutably in %s" % short(bp), "a &mut to the Window's queue is returned from %s" % short(bp), loc)
+            continue
+        uses.append((bp, callee, mut, loc))
     d.need(len(uses), 5, "uses of the Window's queue in the crate")
     for (bp, callee, mut, loc) in uses:
         ok = callee in QUEUE_MUTATORS_OK or callee in QUEUE_READERS
